@@ -531,6 +531,17 @@ Definition json_plain (s : bytes) : bool := forallb json_plain_byte s.
 
 Definition int_safe (z : Z) : bool := Z.abs z <=? two53.
 
+(* a float64 in normal form (VDec 0 0, or a significand not divisible by ten) ... *)
+Definition dec_normal (m e : Z) : bool := if m =? 0 then e =? 0 else negb (m mod 10 =? 0).
+(* ... its decimal exponent (position of the first significant digit) ... *)
+Definition dec_exp (m e : Z) : Z := sig_digits m + e - 1.
+(* ... of a magnitude that %v writes in plain digits (1e-4 <= |x| < 1e6: numberReg's language) ... *)
+Definition dec_top_safe (m e : Z) : bool :=
+  dec_normal m e && ((m =? 0) || ((-4 <=? dec_exp m e) && (dec_exp m e <? 6))).
+(* ... or that encoding/json writes in plain digits (1e-6 <= |x| < 1e21) *)
+Definition dec_json_safe (m e : Z) : bool :=
+  dec_normal m e && ((m =? 0) || ((-6 <=? dec_exp m e) && (dec_exp m e <? 21))).
+
 (* strictly increasing keys (checked pairwise): the canonical presentation of a Go map *)
 Fixpoint keys_sorted (ks : list bytes) : bool :=
   match ks with
@@ -543,7 +554,7 @@ Fixpoint jsafe (v : cval) : bool :=
   match v with
   | VNull | VBool _ => true
   | VInt z => int_safe z
-  | VDec _ _ => false
+  | VDec m e => dec_json_safe m e
   | VStr s => json_plain s
   | VList l => forallb jsafe l
   | VMap kvs => keys_sorted (map fst kvs)
@@ -599,7 +610,7 @@ Definition safe (v : cval) (T : ftype) : bool :=
   | VBool _ => true
   | VStr s => plain s && negb (beqb s [])
   | VInt z => int_safe z && int_target T
-  | VDec _ _ => false
+  | VDec m e => dec_top_safe m e
   | VList _ | VMap _ => jsafe v && nsafe T v
   end.
 
